@@ -23,7 +23,7 @@ P = {
          'Closed forms of Comparable.__lt__/__eq__/__le__/__gt__/__ge__ are extracted from the real AST by path enumeration '
          'and the order laws (irreflexive, asymmetric, transitive, total, respects ==, None first, numbers next, bytes before '
          'text, native order inside a class, raw right operands) are discharged by z3 for ALL values of the value domain; '
-         'the lexicographic lifting lemma covers sequences of all lengths. The use sites (sort, issorted, selectors, merge '
+         'the lexicographic lifting lemma covers sequences of all lengths; comparable_itemgetter (the key function of every sort / merge / group operator) is proved to return THE Comparable of the key cell(s), a missing cell read as None. The use sites (sort, issorted, selectors, merge '
          'join) and T3/T4 are carried by the bounded stand-in over a 36-value alphabet (all pairs, triples).',
          TB + ' Nested values: wrap model + lemma Lex + structural induction on depth (schema stated, not machine-checked).',
          TECH_D),
@@ -31,12 +31,12 @@ P = {
          'Each comparison selector (selecteq..selectge, the four ranges, none/notnone, true/false, is/isnot) is executed from the '
          'real AST (selector -> selectop -> select -> FieldSelectView.__init__) and its where-closure is proved equal to the '
          'documented predicate under the Comparable contract (C04) for ALL cell and reference values; wiring of field/complement/'
-         'missing proved. The filter loops iterfieldselect / iterrowselect (a row is emitted iff the predicate holds, unchanged, in order; short rows per `missing`/complement) and iterrowslice (symbolic islice window: exactly rows start, start+step, ... < stop) are proved for all tables; search and facet are carried by the bounded stand-in (tables <= 3 rows).',
+         'missing proved. The filter loops iterfieldselect / iterrowselect (a row is emitted iff the predicate holds, unchanged, in order; short rows per `missing`/complement) and iterrowslice (symbolic islice window: exactly rows start, start+step, ... < stop) are proved for all tables; itertail (deque window: exactly the last n rows) and iterselectusingcontext (row i kept iff query(row i-1, row i, row i+1); exactly one row of look-ahead) by inductive invariants; search and facet are carried by the bounded stand-in (tables <= 3 rows).',
          TB + ' Comparable is used through its contract (contracts/lib_order.py), itself discharged by C04.ladder.', TECH_D),
  'C01': (True, 'proof',
-         'Write-set obligations of the non-interference lemma: for every Table/IterContainer subclass of 28 modules (97 view classes) the set of view attributes and process-wide state written by __iter__ and the self-methods it reaches is computed from the real AST and must be empty or within the declared, justified set of the stateful views (sort caches, hash-join lookups, cache(), fromdicts(generator), clock); sort-cache generators proved not to read shared cache attributes.'
+         'Write-set obligations of the non-interference lemma: for every Table/IterContainer subclass of 28 modules (97 view classes) the set of view attributes and process-wide state written by __iter__ and the self-methods it reaches is computed from the real AST and must be empty or within the declared, justified set of the stateful views (sort caches, hash-join lookups, cache(), fromdicts(generator), clock); sort-cache generators proved not to read shared cache attributes. The stateful views are proved non-interfering by RELY/GUARANTEE for any number of live iterators and any schedule: CacheView.__iter__ (invariant: the shared cache is a prefix of the inner table; every reader yields exactly the inner rows, in order, whatever the others do) and DictsGeneratorView.__iter__ (shared generator + spill file with shared position: append only, position re-established before every write, every reader yields row(dict j) at step j); SortView.__iter__ / the three hash-join views are proved to hand each generator its own references (the cached objects themselves, one lookup per pass when cache is off).'
          ' Bounded stand-in for the rest: ' 'All interleavings of next() on 2 (thorough: 3) live iterators with abandonment and a fresh pass, over the view constructors incl. the caching ones, vs the solo pass of an identical fresh view.',
-         TB + ' The lemma itself (induction over schedules) is stated, not machine-checked; stateful-view interleavings are decided by the bounded schedule enumeration only.', TECH_D),
+         TB + ' The non-interference lemma for stateless views (induction over schedules) and the rely/guarantee soundness argument (guarantee == rely) are stated, not machine-checked; interference is modelled at yield points (generators are not preempted); randomtable/dummytable are bounded only.', TECH_D),
  'C02': (True, 'proof',
          'Constructor half: 96 public constructors (transform, util) are executed symbolically from the real AST (function body + view __init__) on symbolic sources with a ghost pull counter: no iterator is obtained / no row read at construction (header row at most for natural joins and *all functions). Per-row half: every generator verified by the stateless-body rule (cut, stack, addfield, addrownumbers, header functions, convert, select, rowmap) carries the generic obligations "at most the header pulled before the first data row", "an iteration pulls no row besides its own", "no other source iterator drained" (no read-ahead, no materialisation, independent of the source length by construction).'
          ' Bounded stand-in for the rest: ' 'Instrumented sources count pulled rows: 0 at construction (<= header for the named exceptions), pulls for k output rows identical for 100- and 10000-row sources, for the streaming operator catalogue and compositions.',
@@ -46,7 +46,7 @@ P = {
          ' Bounded stand-in for the rest: ' 'Deep snapshots of sources (lists of mutable lists, ragged) before/after full and partial iteration of the operator catalogue; every yielded row compared with its copy at the end.',
          TB + ' Origin analysis is intra-procedural and syntactic about what creates a fresh container; callbacks assumed non-mutating.', TECH_D),
  'C05': (True, 'proof',
-         "SortView._iternocache (real AST) for ALL table and buffer sizes: the in-memory path is taken only when the whole source was read and yields each sorted row once; by an inductive invariant on `while rows` the chunking conserves rows (dumped + buffered = read; every chunk non-empty and <= buffersize; at the end every data row dumped exactly once, incl. buffersize == nrows and nrows+-1); every chunk is sorted with the one key function and the caller's reverse flag; buffersize=None means config.sort_buffersize; the cache is never published while chunks are being written. K-way merge: the wrapper _Keyed is proved to order by key only (reverse flips it, ties are neither-less) and one step of the shortlist merge is proved for 2 and 3 live runs, both directions: the emitted row is a minimum (maximum) of the run heads, the earlier run wins ties (stability across chunks), the run is advanced and re-inserted in order."
+         "SortView._iternocache (real AST) for ALL table and buffer sizes: the in-memory path is taken only when the whole source was read and yields each sorted row once; by an inductive invariant on `while rows` the chunking conserves rows (dumped + buffered = read; every chunk non-empty and <= buffersize; at the end every data row dumped exactly once, incl. buffersize == nrows and nrows+-1); every chunk is sorted with the one key function and the caller's reverse flag; buffersize=None means config.sort_buffersize; the cache is never published while chunks are being written. K-way merge: the wrapper _Keyed is proved to order by key only (reverse flips it, ties are neither-less) and one step of the shortlist merge is proved for 2 and 3 live runs, both directions: the emitted row is a minimum (maximum) of the run heads, the earlier run wins ties (stability across chunks), the run is advanced and re-inserted in order. SortView.__iter__ dispatch and the two cache-backed generators (_iterfrommemcache, _iterfromfilecache) are proved: later passes replay the cached rows in order / re-merge the cached chunk files by name with the cached key and the view's reverse flag, holding the delete-on-GC wrappers for the whole pass."
          ' Bounded stand-in for the rest: ' 'sort/mergesort vs sorted(enumerate(rows)) under the C04 reference ordering for all small tables x key forms x reverse x buffersize 1..n+1,None x cache x passes; mergesort == sort(cat).',
          TB + ' T1 (list.sort stable permutation), T7 (pickle) trusted; the merge step is proved for k = 2, 3 live runs (k > 3 and the composition of steps into a sorted permutation: engine meta-argument + bounded check); heapq.merge (T5) trusted.', TECH_D),
  'C06': (True, 'proof',
@@ -54,14 +54,14 @@ P = {
          ' Bounded stand-in for the rest (crossjoin, compound keys, prefixes, end-to-end vs a nested-loop reference): All pairs of small tables (None/mixed/compound keys, ragged, header-only, prefixes, missing) for the seven join operators vs a nested-loop relational reference: header, multiset, key order.',
          TB + ' T2 itertools.groupby at group level + the sort precondition (group keys strictly ascending); Comparable through its contract (C04); joinrows replaced by the event it stands for in the merge proofs (its own contract is C06.joinrows.*); single key field in the proved part.', TECH_D),
  'C07': (True, 'proof',
-         "The probe loops of iterhashjoin, iterhashleftjoin and iterhashlookupjoin (real AST) are proved for ALL streamed tables and ALL lookup dictionaries (symbolic map through the contract of lookup/lookupone) by the nested stateless-body rule: a streamed row with key k yields one row per partner in lookup[k], each = the row followed by the partner's non-key cells (hashlookupjoin: the first partner only); a key that is absent yields nothing / the row padded with `missing`; hence output in the streamed side's order with the relational multiset."
+         "The probe loops of iterhashjoin, iterhashleftjoin and iterhashlookupjoin (real AST) are proved for ALL streamed tables and ALL lookup dictionaries (symbolic map through the contract of lookup/lookupone) by the nested stateless-body rule: a streamed row with key k yields one row per partner in lookup[k], each = the row followed by the partner's non-key cells (hashlookupjoin: the first partner only); a key that is absent yields nothing / the row padded with `missing`; hence output in the streamed side's order with the relational multiset. iterhashrightjoin (left rows as partners, key copied into the left key position for an unmatched right row) and iterhashantijoin (set of right keys by an inductive invariant with a counting function; a left row is emitted iff NO right row has its key) likewise; the three view classes are proved to build ONE lookup per pass (cache off) or reuse the cached one, and to build nothing at construction."
          ' lookup() and lookupone() themselves (real AST) are proved against that contract over a symbolic dictionary with a ghost counting function: after the pass, for every key the entry holds exactly the values of the rows with that key in table order (lookupone: the first; strict: DuplicateKeyError exactly at the first repeated key), absent keys absent.'
-         ' Bounded stand-in for the rest (right/anti joins, compound keys, cache, agreement with the merge joins, dictlookup/recordlookup): ' 'Hash joins vs the relational reference and vs their sort-merge twins, cache on/off, two passes, streamed-side order; lookup family vs a reference dict incl. strict.',
+         ' Bounded stand-in for the rest (compound keys, agreement with the merge joins, dictlookup/recordlookup): ' 'Hash joins vs the relational reference and vs their sort-merge twins, cache on/off, two passes, streamed-side order; lookup family vs a reference dict incl. strict.',
          TB + ' dict through its contract (T6: keys modulo ==/hash, insertion order irrelevant to the claims); counting lemmas proved by induction (C07.cnt.lemmas); single key field in the proved part.', TECH_D),
  'C08': (True, 'proof',
-         'iterhashcomplement (strict and non-strict) and iterhashintersection (real AST) are proved for ALL pairs of tables with the hybrid rule over a symbolic Counter and ghost counting functions occA / cntB: the carried invariant is bcnt[v] = max(0, cntB(v) - occA(v, i)) (strict: = cntB(v)) for every value v, and row i of a is emitted, once and unchanged, iff occA(i) >= cntB(a[i]) (complement), cntB(a[i]) == 0 (strict), occA(i) < cntB(a[i]) (intersection): a\'s order, multiset a - b / a & b, and complement + intersection partition a because the keep-predicates are complementary; b is never written (C03), header of a first.'
-         ' Bounded stand-in for the rest (sort-based complement/intersection, diff, recordcomplement/recorddiff, agreement of the hash and sort variants): ' 'complement/intersection/diff/record*/hash* vs collections.Counter arithmetic for all pairs of small rectangular tables; partition law.',
-         TB + ' collections.Counter through its contract (T6); row equality = Python tuple equality (uninterpreted equivalence); the sort-based variants are bounded only.', TECH_D),
+         'iterhashcomplement (strict and non-strict) and iterhashintersection (real AST) are proved for ALL pairs of tables with the hybrid rule over a symbolic Counter and ghost counting functions occA / cntB: the carried invariant is bcnt[v] = max(0, cntB(v) - occA(v, i)) (strict: = cntB(v)) for every value v, and row i of a is emitted, once and unchanged, iff occA(i) >= cntB(a[i]) (complement), cntB(a[i]) == 0 (strict), occA(i) < cntB(a[i]) (intersection): a\'s order, multiset a - b / a & b, and complement + intersection partition a because the keep-predicates are complementary; b is never written (C03), header of a first. The SORT-based itercomplement (strict and non-strict) and iterintersection merge loops are proved with the same keep-predicates for all pairs of sorted tables: inductive invariant (every consumed b-row <= the current a-row; #consumed b-rows equal to it = min(occA, cntB)), per-step judgements incl. the step that leaves the loop and the rows left over when b runs out; the sorts that establish the precondition are wired on the whole row with the caller\'s strategy arguments (C11.wiring.complement / intersection / diff).'
+         ' Bounded stand-in for the rest (diff as two complements, recordcomplement/recorddiff field alignment, agreement of the hash and sort variants end to end): ' 'complement/intersection/diff/record*/hash* vs collections.Counter arithmetic for all pairs of small rectangular tables; partition law.',
+         TB + ' collections.Counter through its contract (T6); row equality = Python tuple equality, read as Comparable equality in the merge proofs (rows without nested sequences); sortedness of the inputs is the contract of the sort (C05).', TECH_D),
  'C09': (True, 'exploration',
          'Grouping/aggregation operators vs a dictionary-based reference grouping (ascending key order, input order inside groups, conservation of counts and sums) x spec forms x buffersize/presorted.'
          ' Proved sub-claim (does not decide the conservation clauses on its own): ' "Group-level half proved for all tables: the keyed drivers itersimpleaggregate (single key) and iterfold emit exactly one row per group delivered by rowgroupby, (iterrowreduce likewise) carrying the unwrapped key and the aggregation / reduce applied to exactly the values of that group's rows in order (itertools.groupby through its contract T2: consecutive non-empty runs); header once. That the sorted input is split into one group per distinct key in ascending order (T2 + the sort), the multi-field form, mergeduplicates, merge and the counting functions are NOT proved.",
@@ -75,35 +75,35 @@ P = {
          ' Bounded stand-in for the result-equality clause (same header, rows and order as the default call) and the cache histories: Every sort-backed operator x buffersize x cache x tempdir x config.sort_buffersize x presorted vs the default call; cache clause over (edit, iterate) histories with pull counting.',
          TB + ' The k-way merge of the chunks (T5) is trusted / bounded, so equality of the ORDER of equal-key rows across strategies is decided by the bounded check only.', TECH_D),
  'C12': (True, 'proof',
-         'asindices is proved with an inductive loop invariant for any number of selectors (indices in range) and exactly for 1-2 selectors; itercut, iterstack, iteraddfield, iteraddrownumbers, setheader/extendheader/pushheader are proved cell-exact per data row by the stateless-body rule for all tables, row lengths, indices and flags (one output row per input row, only the requested cells change, padding/trimming as documented, no IndexError); iterfieldconvert.transform_row proved per cell; itercutout (ordered-complement model of the kept indices), itervalues and iteraddfields likewise.'
+         'asindices is proved with an inductive loop invariant for any number of selectors (indices in range) and exactly for 1-2 selectors; itercut, iterstack, iteraddfield, iteraddrownumbers, setheader/extendheader/pushheader are proved cell-exact per data row by the stateless-body rule for all tables, row lengths, indices and flags (one output row per input row, only the requested cells change, padding/trimming as documented, no IndexError); iterfieldconvert.transform_row proved per cell; itercutout (ordered-complement model of the kept indices), itervalues, iteraddfields and iteraddcolumn (zip_longest rule: both run-out cases, default position = the new field) likewise; the converter forms methodcaller / dictconverter are proved against their definitions.'
          ' Bounded stand-in for the rest: ' 'Every field/row transform of the statement vs a cell-by-cell reference over positional tables with ragged rows, duplicate names, all selections and insertion indices.',
          TB + ' asindices contract used modularly; stateless-body composition is the engine meta-theorem.', TECH_D),
  'C14': (True, 'exploration',
          'Reshape round trips (melt/recast, transpose, flatten/unflatten, dicts/columns) and cell-exact expansion operators over all small rectangular tables, key/variable splits, periods.'
-         ' Proved sub-claim (does not decide the round-trip clauses): ' 'Streaming half proved for all tables: itermelt (nested stateless rule) emits for every (row, variable) pair exactly one row = key cells + variable name + that cell, or nothing when the row is too short, under the header key fields + variable + value; FlattenView emits every data cell once, row-major. The round trips (melt/recast, transpose, unflatten, dicts/columns), pivot and the regex expansions are NOT proved.',
+         ' Proved sub-claim (does not decide the round-trip clauses): ' 'Streaming half proved for all tables: itermelt (nested stateless rule) emits for every (row, variable) pair exactly one row = key cells + variable name + that cell, or nothing when the row is too short, under the header key fields + variable + value; FlattenView emits every data cell once, row-major; UnflattenView cuts the values into consecutive windows of `period` (tiling proved, last window padded, a full last window not lost); itersplit / itercapture / itersplitdown expand exactly the addressed cell (regex engine as an uninterpreted function) and carry every other cell over in place; pivot is wired to sort on (f1, f2). The round trips (melt/recast, transpose, dicts/columns), the pivot loop, unpack/unpackdict are NOT proved.',
          BNOTE + ' recast/pivot are two-pass algorithms with sampling and nested groupby; regular expressions are opaque.', TECH_D),
  'C15': (True, 'proof',
-         "csv and pickle glue as typestate proofs over the effect trace on every path (every I/O call may raise): _writecsv and CSVView open in the right mode, wrap with the SAME encoding/errors and newline='', hand the caller's csv arguments over unchanged, write/yield each row exactly once in order, write the header iff asked, flush before detach, detach and close on every exit; _writepickle dumps each row independently with the caller's protocol."
+         "csv and pickle glue as typestate proofs over the effect trace on every path (every I/O call may raise): _writecsv and CSVView open in the right mode, wrap with the SAME encoding/errors and newline='', hand the caller's csv arguments over unchanged, write/yield each row exactly once in order, write the header iff asked, flush before detach, detach and close on every exit; _writepickle dumps each row independently with the caller's protocol; the eight public csv/tsv front ends are proved to hand reader and writer the SAME format arguments (the caller's plus one family default dialect), so that what one side writes the other reads."
          ' Bounded stand-in for the rest: ' 'to*/append*/from* round trips over a hostile cell alphabet x encodings x csv dialect arguments x source kinds x header flags; bytes of to+append == to(cat).',
          TB + ' T7: the standard library (csv, codecs, TextIOWrapper, pickle, gzip, bz2) is lossless for matching arguments; json and the byte-level round trips are bounded only.', TECH_D),
  'C16': (True, 'proof',
          'TeeCSVView and TeePickleView are proved transparent (each row yielded once, unchanged, in order) and to issue exactly the event trace of _writecsv / _writepickle (same prologue, one write per row, header iff write_header, flush, detach/close on every exit).'
          ' Bounded stand-in for the rest: ' 'Pass-through views yield exactly the wrapped rows; tee targets byte-identical to to*; cache() under all pass schedules and interleavings.',
-         TB + ' T7; ProgressViewBase / ClockView / TableWrapper proved pass-through by a shape analysis of their __iter__ (every source row yielded exactly once, unchanged, nothing else yielded); teetext/teehtml/cache are bounded only.', TECH_D),
+         TB + ' T7; ProgressViewBase / ClockView / TableWrapper proved pass-through by a shape analysis of their __iter__ (every source row yielded exactly once, unchanged, nothing else yielded); cache(): CacheView.__iter__ proved transparent for every n and every pass by rely/guarantee (C16.CacheView.rg.*); teetext/teehtml are bounded only.', TECH_D),
  'C17': (True, 'proof',
          'Typestate proof over the effect trace: todb/appenddb/_todb/_todb_dbapi_{connection,cursor,mkcurs} are executed from the real AST on EVERY path with every external call (connect, cursor, execute, executemany, close, commit) and every source next() allowed to raise; on each path: no commit when an exception escapes, at most one commit and only after executemany completed, commit=False never commits, DELETE+INSERT+commit on one connection, petl-opened connections opened transactional and closed last, caller handles never closed, header consumed before any statement.'
          ' Bounded stand-in for the rest: ' 'sqlite3: prior contents x source failure at every row index x handle kind x commit flag for todb/appenddb, observed through a fresh connection; fromdb(todb(t)) == t.',
          TB + ' T8 (DB-API transaction visibility) assumed; _quote/_placeholders assumed (bounded-checked); create=False.', TECH_D),
  'C18': (True, 'exploration',
          'Private tempdir: every abandonment point / release order / source failure / pass count for buffered sorts and the fromdicts spill file; directory empty afterwards, surviving iterators complete.'
-         ' Proved sub-claim (not what decides the property): ' 'ownership obligation (C05.iternocache): every chunk file is created with delete=False in the requested tempdir and wrapped by the delete-on-GC wrapper before any row is dumped; the cache is not published while chunks are being written; sort-cache generators own what they were handed (C01.frame).',
+         ' Proved sub-claim (not what decides the property): ' 'ownership obligation (C05.iternocache): every chunk file is created with delete=False in the requested tempdir and wrapped by the delete-on-GC wrapper before any row is dumped; the cache is not published while chunks are being written; sort-cache generators own what they were handed (C01.frame, C05.SortView.dispatch: the wrappers themselves, held for the whole pass); DictsGeneratorView: the spill file is private (delete=False, wb+), append-only, and a later or slower iterator served from it yields the complete correct sequence under any interleaving (rely/guarantee).',
          BNOTE + ' The deciding fact - when CPython finalises an unreachable wrapper - is T9, not a function contract.', TECH_D),
  'C19': (True, 'proof',
-         'transform_value and transform_row of the real iterfieldconvert and the row loop of iterrowmap plus iterfieldmap and iterrowmapmany are proved against the three-way policy for ALL values, converters (uninterpreted callbacks that may raise an exception of any class) and positions: errorvalue / exception object / re-raise at the failing cell or row, non-failing cells identical, lazily failing mapper results included.'
+         'transform_value and transform_row of the real iterfieldconvert and the row loop of iterrowmap plus iterfieldmap and iterrowmapmany are proved against the three-way policy for ALL values, converters (uninterpreted callbacks that may raise an exception of any class) and positions: errorvalue / exception object / re-raise at the failing cell or row, non-failing cells identical, lazily failing mapper results included; methodcaller(name, *args) is proved to raise for EVERY value without the method (None included), never to pass a value through silently.'
          ' Bounded stand-in for the rest: ' 'Every subset of failing positions x three policies x argument vs config default x errorvalue for convert/fieldmap/rowmap/rowmapmany vs the policy reference, stepped with next().',
          TB + ' Callbacks deterministic; callback exception classes unconstrained (any Exception subclass).', TECH_D),
  'C20': (True, 'proof',
-         'The zero-data-row instance of 37 generator functions (cut, cutout, stack, annex, addfield(s), addcolumn, addrownumbers, addfieldusingcontext, header functions, convert, select family, fills, maps, dedup, sort-merge joins incl. outer/anti/lookup, hash joins, complement/intersection, melt, values, rowslice) is executed from the real AST on header-only tables of symbolic width and field names: data loops run zero times, so without any loop contract it is proved that no exception escapes (FieldSelectionError for a non-existent field excepted) and exactly the header row is emitted.'
+         'The zero-data-row instance of 43 generator functions (cut, cutout, stack, annex, addfield(s), addcolumn, addrownumbers, addfieldusingcontext, header functions, convert, select family, fills, maps, dedup, sort-merge joins incl. outer/anti/lookup, hash joins, complement/intersection, melt, values, rowslice, key-less / keyed aggregate, fold, rowreduce) is executed from the real AST on header-only tables of symbolic width and field names: data loops run zero times, so without any loop contract it is proved that no exception escapes (FieldSelectionError for a non-existent field excepted) and exactly the header row is emitted.'
          ' Bounded stand-in for every other public operator: ' 'Every public transform/util operator x every position of the header-only table x header shapes 0/1/3 fields: never raises, returns its zero-row definition.',
          TB + ' asindices / Comparable through their contracts; header computations that filter a symbolic field list are over-approximated.', TECH_D),
 }
@@ -150,7 +150,7 @@ def main():
             {'name': 'bcheck', 'path': '/verif/bcheck', 'serves_properties': [c['property_id'] for c in checks],
              'kind_free_text': 'bounded stand-in: the same contracts / reference specs evaluated on the real functions under /venv/bin/python over an enumerated finite scope; never counted as proved'}],
         'checks': checks,
-        'notes': 'exit codes of ./check: 0 held, 1 VIOLATION, 2 undecided (lost proof, no counterexample), 3 checker fault. VERIF_REPO=<dir> points the checks at another tree (used for seeded mutants).',
+        'notes': 'exit codes of ./check: 0 held, 1 VIOLATION (a refuted obligation, a bounded counterexample, or an obligation discharged on the pinned tree -- contracts/expected/<id>.json -- that the verifier no longer accepts: reported with no-failing-input-found unless the bounded layer supplies an input), 2 undecided (the changed code left the supported subset, or an obligation that was never discharged), 3 checker fault. A check also runs the tasks that discharge the contracts its own tasks assume (lib/driver.py DEPENDS). VERIF_REPO=<dir> points the checks at another tree (used for seeded mutants).',
         'not_applicable': na,
     }
     json.dump(m, open(os.path.join(V, 'MANIFEST.json'), 'w'), indent=1)
